@@ -70,6 +70,16 @@ def build(prop, tier, seed, workdir, refine=(), opaque=(), external=(), behaviou
                     layout_hints[lname] = json.loads(out)
         except native.NativeError:
             pass
+    pred_hints = None
+    if pre.needs_pred_hints:
+        from . import native
+        try:
+            b = native.build(pre)
+            rc, out, err = native.run(b, ['preds'])
+            if rc == 0:
+                pred_hints = json.loads(out)
+        except native.NativeError:
+            pass
     aux = {}
     for g in cfg.get('cellgens', []):
         t, o, a = getattr(cells, g)(pre, prop, tier, VERIF, refine)
@@ -78,7 +88,7 @@ def build(prop, tier, seed, workdir, refine=(), opaque=(), external=(), behaviou
         aux.update(a or {})
     os.makedirs(workdir, exist_ok=True)
     gen_path = os.path.join(workdir, 'gen.rs')
-    info = gen.generate(REPO, os.path.join(VERIF, 'contracts'), texts, out_path=gen_path, opaque=opaque, external=external, table_hints=table_hints, layout_hints=layout_hints, behavioural=behavioural)
+    info = gen.generate(REPO, os.path.join(VERIF, 'contracts'), texts, out_path=gen_path, opaque=opaque, external=external, table_hints=table_hints, layout_hints=layout_hints, behavioural=behavioural, pred_hints=pred_hints)
     info.aux = aux
     return info, obligations, gen_path
 
